@@ -11,3 +11,5 @@ mod c18;
 mod c02;
 #[cfg(kani)]
 mod c17;
+#[cfg(kani)]
+mod c26;
